@@ -76,9 +76,15 @@ deriving Repr
 
 def hasSplit (ss : List RSplit) (s : Nat) : Bool := ss.any (·.split == s)
 
-/-- reader `AssignSplits`: a split the reader already holds is ignored -/
-def assignOne (ss : List RSplit) (sc : Nat × Nat) : List RSplit :=
-  if hasSplit ss sc.1 then ss else ss ++ [⟨sc.1, sc.2, sc.2⟩]
+/-- reader `AssignSplits`: the split is appended (kinesis, embedded and httpapi readers append unconditionally) -/
+def assignOne (ss : List RSplit) (sc : Nat × Nat) : List RSplit := ss ++ [⟨sc.1, sc.2, sc.2⟩]
+
+/-- the split ids a history assigns to the reader; the splitters hand every split to one reader once per deployment
+(`C16.one_reader`, `C16.partition_disjoint`) and a deployment starts with a fresh reader, so they are distinct -/
+def assignedIds : List RAct → List Nat
+  | [] => []
+  | .assign l :: as => l.map (·.1) ++ assignedIds as
+  | _ :: as => assignedIds as
 
 /-- advance the cursor of split `s` (split ids are unique in the reader) -/
 def advance (ss : List RSplit) (s : Nat) : List RSplit :=
@@ -225,6 +231,7 @@ structure Ckpt where
   done : List Nat               -- ghost: finish notifications processed before the checkpoint
   good : Bool                   -- ghost: no withheld shard lies below `next` (D16c excluded condition)
   clean : Bool                  -- ghost: the state was untainted
+  sound : Bool                  -- ghost: no reported position had been dropped before
 deriving Repr
 
 structure Sp where
@@ -238,6 +245,7 @@ structure Sp where
   done : List Nat := []         -- finish notifications processed (rolled back by a restore)
   log : List Nat := []          -- shards handed out since the last (re)start
   tainted : Bool := false       -- a restore lost withheld shards (D16c)
+  dropped : Bool := false       -- a restore dropped a reported position (D52)
   wild : Bool := false          -- a finish notification named a shard that was not assigned (no reader does that)
 deriving Repr
 
@@ -273,22 +281,36 @@ def checkpoint (s : Sp) (states : List (Nat × Nat)) : Sp :=
   let c : Ckpt :=
     { tr := s.tr, states := states, done := s.done,
       good := s.tr.known.all (fun sh => isAssigned s.tr sh || decide (s.tr.next ≤ sh.id)),
-      clean := !s.tainted }
+      clean := !s.tainted, sound := !s.dropped }
   { s with ck := some c }
 
-/-- the tracker of a new splitter after `LoadSplits`; `keep` = the ideal splitter that also persists withheld shards -/
-def loadTr (keep : Bool) (c : Ckpt) : Tr :=
-  { known := addSplits [] (c.tr.known.filter fun sh => isAssigned c.tr sh || keep), assigned := [], next := c.tr.next }
+/-- shards for which the runners reported a position but which were not among the assigned shards when the splitter's
+part of the checkpoint was taken (finished between the runner's barrier and `Checkpoint()`), below the discovery
+cursor (`fixes/D52.diff resumeFinishedShards`) -/
+def readdList (stream : List Shard) (c : Ckpt) : List Shard :=
+  stream.filter fun sh => (c.states.map (·.1)).contains sh.id &&
+    !(isAssigned c.tr sh && knownId c.tr.known sh.id) && decide (sh.id < c.tr.next)
+
+/-- the tracker of a new splitter after `LoadSplits`. `keep` = the ideal splitter that also persists withheld shards
+(D16c); `readd` = the ideal splitter that resumes shards with a reported position that it no longer tracked (D52) -/
+def loadTr (keep readd : Bool) (stream : List Shard) (c : Ckpt) : Tr :=
+  { known := addSplits [] ((c.tr.known.filter fun sh => isAssigned c.tr sh || keep) ++
+      (if readd then readdList stream c else [])),
+    assigned := [], next := c.tr.next }
 
 /-- the state of a new splitter after `LoadSplits` (cold start when there is no checkpoint) -/
-def load (keep : Bool) (s : Sp) : Sp :=
+def load (keep readd : Bool) (s : Sp) : Sp :=
   match s.ck with
   | none => { s with tr := {}, cursors := [], done := [], log := [] }
-  | some c => { s with tr := loadTr keep c, cursors := c.states, done := c.done, log := [],
-                       tainted := s.tainted || !c.clean || (!keep && !c.good) }
+  | some c => { s with tr := loadTr keep readd s.stream c, cursors := c.states,
+                       done := if readd then c.done.filter (fun i => !((readdList s.stream c).map (·.id)).contains i)
+                               else c.done,
+                       log := [],
+                       tainted := s.tainted || !c.clean || (!keep && !c.good),
+                       dropped := s.dropped || !c.sound || (!readd && !(readdList s.stream c).isEmpty) }
 
 /-- a new splitter `Start`s from the last checkpoint: load, discover, assign -/
-def restart (keep : Bool) (s : Sp) : Sp × List Call := assignAvail (discover (load keep s))
+def restart (keep readd : Bool) (s : Sp) : Sp × List Call := assignAvail (discover (load keep readd s))
 
 /-- `kinesisfake` SplitShard -/
 def envSplit (s : Sp) (i at_ : Nat) : Option Sp :=
@@ -316,15 +338,15 @@ inductive Act where
   | merge (i j : Nat)              -- environment
 deriving Repr
 
-def step (keep : Bool) (s : Sp) : Act → Sp × List Call
-  | .start => restart keep s
+def step (keep readd : Bool) (s : Sp) : Act → Sp × List Call
+  | .start => restart keep readd s
   | .tick => assignAvail (discover s)
   | .finish ids => assignAvail (remove s ids)
   | .ckpt st => (checkpoint s st, [])
   | .split i a => ((envSplit s i a).getD s, [])
   | .merge i j => ((envMerge s i j).getD s, [])
 
-def run (keep : Bool) (s : Sp) (as : List Act) : Sp := as.foldl (fun s a => (step keep s a).1) s
+def run (keep readd : Bool) (s : Sp) (as : List Act) : Sp := as.foldl (fun s a => (step keep readd s a).1) s
 
 /-- `createShards(count)` of the fake: `count` root shards over `[0, 2^128)` -/
 def rootShards (count : Nat) : List Shard :=
